@@ -140,6 +140,14 @@ async def observe(w):
     return [{"uid": u, "id": i} for u, i in sorted(out.items())]
 
 
+def kmap(w):
+    """<<uid, MH file number>> of the messages of INBOX (context for reports only)."""
+    try:
+        return [[int(u), int(k)] for k, u, _, _ in w.project_mbox("inbox").get("msgs", [])]
+    except Exception:
+        return []
+
+
 def put_file(w, data: bytes):
     """The external MH agent stores a message under the next free number."""
     p = w.folder_path("inbox")
@@ -177,12 +185,14 @@ async def run_history(w, case, seed=0):
     if junk:
         await w.cmd("B", "EXPUNGE")
     box = await observe(w)
+    km = kmap(w)
     events = []
 
     def base(step):
         return {"act": step["act"], "sub": step.get("sub", ""), "n": int(step.get("n", 0)),
                 "k": int(step.get("k", 0)), "st": "none", "nums": [], "lines": [], "term": False,
-                "extra": 0, "pairs": [], "closed": False, "pre": box, "post": box, "sent": ""}
+                "extra": 0, "pairs": [], "closed": False, "pre": box, "post": box, "sent": "",
+                "kmap": km, "kpost": km}
 
     for idx, step in enumerate(case["steps"]):
         a = step["act"]
@@ -240,7 +250,9 @@ async def run_history(w, case, seed=0):
             ev.update(read_reply(data, a in ("List", "Uidl", "Retr", "Top"), a in ("List", "Uidl")))
             ev["closed"] = bool(ps.closed or ps.task.done())
         box = await observe(w)
+        km = kmap(w)
         ev["post"] = box
+        ev["kpost"] = km
         events.append(ev)
     return {"cat": cat, "steps": events}
 
